@@ -25,8 +25,10 @@ def generic(pid, work, tier, seed, cmd, tracespec, scripts, design, sigfn, rule,
         viol = []
         for v in res["viol"]:
             ln = v[0]
-            sid = None
+            sid = lines[ln - 1].get("script")
             for i in range(ln - 1, -1, -1):
+                if sid:
+                    break
                 if lines[i].get("ev") == "reset":
                     sid = lines[i].get("script")
                     break
@@ -161,4 +163,54 @@ def c19(work, tier, seed):
                             "round trip on random settings maps (colons, non-ASCII, 4 KiB lines); the real builder with every setting non-default alone and in random combinations, read back through NewBuilderFromFile; "
                             "templates with malformed lines; the real download handler with templates that try to override gateway-controlled settings")
     out.coverage["traces_validated_against_impl"] = res["lines"]
+    return out
+
+
+# ------------------------------------------------------------------ C18
+
+def c18(work, tier, seed):
+    dot = work.path("config.dot")
+    design = design_check("Config", "MC_Config.cfg", work, workers=4, timeout=300, extra=["-dump", "dot", dot])
+    nodes, roots, edges = parse_dot(dot)
+    cfgs = [parse_tla_value(state_vars(nodes[n])["c"]) for n in sorted(nodes)]
+    rng = random.Random(seed)
+    scripts = []
+
+    def reasons(c):
+        r = []
+        if "openid" in c["auth"] and not c["tokenAuth"]: r.append("a")
+        if "local" in c["auth"] and c["tlsDisabled"]: r.append("b")
+        if "ntlm" in c["auth"] and "kerberos" in c["auth"]: r.append("c")
+        if "kerberos" in c["auth"] and not c["keytab"]: r.append("d")
+        if c["signedSel"] and not c["queryKey"]: r.append("e")
+        if c["nhosts"] == 0: r.append("f")
+        return r
+    if tier == "quick":
+        # every configuration with at most one refusal reason from every source, a sample of the rest
+        pick = [c for c in cfgs if len(reasons(c)) <= 1]
+        rng.shuffle(pick)
+        single = {}
+        for c in pick:
+            key = (tuple(reasons(c)), tuple(sorted(c["auth"])))
+            single.setdefault(key, c)
+        chosen = list(single.values())
+        rest = [c for c in cfgs if len(reasons(c)) > 1]
+        rng.shuffle(rest)
+        chosen += rest[:40]
+        for i, c in enumerate(chosen):
+            for src in (("file", "env", "both") if len(reasons(c)) <= 1 and i % 3 == 0 else (["file", "env", "both"][i % 3],)):
+                scripts.append(dict(c, id="s%05d" % len(scripts), kind="start", src=src))
+    else:
+        for c in cfgs:
+            for src in ("file", "env", "both"):
+                scripts.append(dict(c, id="s%05d" % len(scripts), kind="start", src=src))
+    for key in ("paasign", "sess", "sessenc", "userenc"):
+        for ln in (0, 1, 31, 32) + ((33,) if tier == "thorough" else ()):
+            scripts.append({"id": "x%05d" % len(scripts), "kind": "cross", "key": key, "len": ln, "auth": ["openid"], "src": "file"})
+    out, rep, res = generic("C18", work, tier, seed, "config", "ConfigTrace", scripts, design,
+                            lambda v: "%s/%s/%s" % (v["guard"], v["a"], v["b"]),
+                            "Config.tla: the lattice {auth subset x TLS x tokenauth x selection x query key x keytab x host count} = 1440 configurations with the refusal table (design). Conformance: the real binary is started under "
+                            "(quick) every configuration with at most one refusal reason per auth subset from file, environment and both plus a sample of multi-reason ones, (thorough) all 1440 x {file, env, both}; "
+                            "outcome = exit vs listening; keys of length 0/1/31/32: what instance A mints (access cookie, session cookie, user token) is presented to instance B started from the same configuration; TLC judges with Config!Refuse / KeyKept",
+                            jobs=16)
     return out
